@@ -434,7 +434,11 @@ class Behavior(_IModel):
                 np.ones((Ne, nPg), dtype=bool),
             )
         if self.__Get_eigen() is not None:
-            return self.__Spectral(eps6_e_pg, zOld_e_pg, C6_e_pg, dt)
+            spectral = self.__Spectral(eps6_e_pg, zOld_e_pg, C6_e_pg, dt)
+            if spectral[3].all():
+                return spectral
+            # the scalar Newton stalled somewhere (e.g. a rate law whose slope is unbounded at
+            # the onset of flow): the general solve takes over rather than a half-way return
         return self.__Flow(eps6_e_pg, zOld_e_pg, C6_e_pg, dt)
 
     def __Spectral(
@@ -469,8 +473,7 @@ class Behavior(_IModel):
         z_e_pg[..., A.start] = pOld_e_pg + res.dGamma
 
         C_alg = _spectral.Tangent(self.__eigen, res, C_e_pg)
-        converged = np.ones(eps6_e_pg.shape[:2], dtype=bool)
-        return res.sig, C_alg, z_e_pg, converged
+        return res.sig, C_alg, z_e_pg, res.converged
 
     def __Condense(self, C_e_pg: FeArray) -> FeArray:
         """Static condensation of the zz row and column, giving the in-plane tangent."""
